@@ -69,7 +69,9 @@ for d in sorted(os.listdir(os.path.join(ROOT, 'seeded'))):
         continue
     m = json.load(open(mp))
     notes = ' '.join(m.get('needs_to_manifest', '').split())[:260].replace('|', '\\|')
-    r = matrix.get(d, {})
+    r = dict(matrix.get(d, {}))
+    if m.get('status', '').startswith('superseded'):
+        r['verdict'] = 'quiet, as it must be: ' + m['status'][:160]
     out.append('| %s | %s | %s | %s | %s |' % (d, m['property'], notes, r.get('verdict', 'not evaluated'), (r.get('jobs') or '')[:200].replace('|', '\\|')))
 out.append('')
 
